@@ -157,6 +157,15 @@ class Group:
 
 
 DOCS = [None, ["Does one thing."], ["Short summary here.", "", "A second paragraph", "that spans two lines."]]
+# further doc-comment shapes (used by a dedicated enum): summary ending in two dots (kept), lines with
+# extra blanks (merged and trimmed), a blank line first, three paragraphs, a multi-byte summary
+DOCS_EXTRA = [
+    ["Wait for it.."],
+    ["  Padded   summary  ", "continues here."],
+    ["", "Summary after a blank line.", "", "", "Second paragraph after two blank lines."],
+    ["One.", "", "Two.", "", "Three."],
+    ["Résumé in UTF-8: é中𝄞."],
+]
 FDOCS = [None, "Field documentation"]
 
 
@@ -418,6 +427,14 @@ def build_set(which):
         Cmd("Help", doc=["Own help command"]),
         Cmd("Exit"),
     ], help_title="Nesting"))
+
+    # ---------------- doc-comment shapes
+    if which != "c16":
+        dcmds = []
+        for i, d in enumerate(DOCS_EXTRA):
+            f = Field("val", "positional", "u8", "option", doc="Field doc number %d." % i)
+            dcmds.append(Cmd("Doc%s" % "ABCDE"[i], [f], doc=d, name="doc%s" % "abcde"[i]))
+        add(Enum("PD0", dcmds, help_title="Documented"))
 
     # ---------------- groups
     first = order[2].ident if len(order) > 2 else "PN0"
